@@ -71,6 +71,13 @@ theorem refuses_small_scratch (one : K) (fs : List (Fld K)) (W0 W1 : Int) (dx0 d
   · simp only [propagateFft, Bool.false_eq_true, if_false, hb, if_true]
   · simp only [propagateFft, Bool.false_eq_true, if_false, hb, hsm, if_true]
 
+/-- the views of the scratch buffer that receive the inserted fields and that are transformed are exactly the
+`S0 x S1` corner `scratch[0:S0, 0:S1]`, and so is the region zeroed beforehand (generated from the source) -/
+theorem scratch_views_are_corner (S0 S1 : Int) :
+    Gen.scratchZero S0 S1 = ((0, S0), (0, S1)) ∧ Gen.scratchInsertTarget S0 S1 = ((0, S0), (0, S1)) ∧
+    Gen.scratchInsertView S0 S1 = ((0, S0), (0, S1)) ∧ Gen.scratchFftView S0 S1 = ((0, S0), (0, S1)) :=
+  ⟨rfl, rfl, rfl, rfl⟩
+
 /-- **Scratch is transparent.** For two scratch buffers of any sufficient sizes and any prior contents, the padded grid
 handed to the FFT is the same at every grid index, hence so is every sample of the result. -/
 theorem scratch_transparent_grid (one : K) (fs : List (Fld K)) (W0 W1 S0 S1 : Int) (scr scr' : Arr K) (i j : Int)
@@ -78,9 +85,7 @@ theorem scratch_transparent_grid (one : K) (fs : List (Fld K)) (W0 W1 S0 S1 : In
     (fftGrid one fs W0 W1 S0 S1 (some scr)).get i j = (fftGrid one fs W0 W1 S0 S1 (some scr')).get i j := by
   unfold fftGrid
   apply foldInsert_get_congr <;> try rfl
-  have : (decide (0 ≤ i) && decide (i < S0) && decide (0 ≤ j) && decide (j < S1)) = true := by
-    simp only [Bool.and_eq_true, decide_eq_true_eq]; omega
-  simp only [zeroedCorner, this, if_true]
+  rw [zeroedCorner_get scr S0 S1 i j hi hj, zeroedCorner_get scr' S0 S1 i j hi hj]
 
 theorem scratch_transparent (one : K) (fs : List (Fld K)) (W0 W1 S0 S1 : Int) (scr scr' : Arr K) (hS : 0 < S0 ∧ 0 < S1)
     (u v : Int) :
